@@ -248,6 +248,13 @@ def run(ctx):
             p = b["p"]
             w_impl = col2(np.asarray(p.weights, dtype=float))
             Xq = b["Xq"]
+            # the predictor family must be the one the inputs call for (full / inducing-point / Cholesky-latent)
+            if type(p).__name__ != CLASSES[(cfg["fam"], cfg["flavour"])] or w_impl.shape[0] != np.asarray(b["xu"]).shape[0]:
+                ctx.violation("C01|family|%s|%s" % (CLASSES[(cfg["fam"], cfg["flavour"])], cfg["mrel"] if cfg["fam"] != "full" else "-"),
+                              "the predictor built is not of the formulation the inputs call for",
+                              replay_of(cfg, b, {"expected_class": CLASSES[(cfg["fam"], cfg["flavour"])], "observed_class": type(p).__name__,
+                                                 "n_weights": int(w_impl.shape[0]), "n_basis": int(np.asarray(b["xu"]).shape[0])}))
+                continue
             if cfg["flavour"] == "exp":
                 pred_impl = np.asarray(p(Xq, logscale=True), dtype=float)
                 pos = np.asarray(p(Xq), dtype=float)
